@@ -45,6 +45,10 @@ pub struct Sys {
 
 pub struct Router {
     pub n: usize,
+    /// unencrypted mesh
+    pub plain: bool,
+    /// Mode::Normal on a tun device (= router) instead of Mode::Router
+    pub normal_mode: bool,
 }
 
 /// claims of node i (nested across nodes): node 0 /8, node 1 /16 inside it, node 2 /24 inside that, node 3 a disjoint /16
@@ -87,7 +91,10 @@ impl Model for Router {
     fn init(&self) -> Sys {
         let cfgs: Vec<_> = (0..self.n)
             .map(|i| {
-                let mut c = base_config(Mode::Router, Type::Tun, 0, &[0]);
+                let mut c = base_config(if self.normal_mode { Mode::Normal } else { Mode::Router }, Type::Tun, 0, &[0]);
+                if self.plain {
+                    c.crypto.algorithms = vec!["plain".to_string()];
+                }
                 c.claims = claims(i).iter().map(|(b, p)| format!("{}.{}.{}.{}/{}", b[0], b[1], b[2], b[3], p)).collect();
                 c
             })
@@ -202,7 +209,7 @@ pub fn run_outsider(c: &OutsiderCase) -> CaseResult {
         Ok(1)
     };
     if c.mode == "router" {
-        let m = Router { n: 3 };
+        let m = Router { n: 3, plain: false, normal_mode: false };
         let mut s = m.init();
         s.net.queue.clear();
         let mut d = vec![c.msg_type];
@@ -340,7 +347,7 @@ pub fn run(ctx: &Ctx) {
         }
     }
     sweep_list(ctx, "multi_address_mesh", &multi, SweepOpts { chunk: 1, ..Default::default() }, run_multi_addr);
-    let m = Router { n: 3 };
+    let m = Router { n: 3, plain: false, normal_mode: false };
     let res = explore::explore(
         ctx,
         "isolation_router",
@@ -348,8 +355,16 @@ pub fn run(ctx: &Ctx) {
         ExploreOpts { max_depth: ctx.tier.pick(3, 4), wall_cap: Duration::from_secs(ctx.tier.pick(40, 1200)), state_cap: 2_000_000, dedup: true },
     );
     explore::audit_dedup(ctx, "isolation_router", &m, &res, 2, Duration::from_secs(ctx.tier.pick(30, 300)));
+    for (name, plain, normal_mode) in [("isolation_router_plain", true, false), ("isolation_router_normal", false, true)] {
+        explore::explore(
+            ctx,
+            name,
+            &Router { n: 3, plain, normal_mode },
+            ExploreOpts { max_depth: ctx.tier.pick(2, 3), wall_cap: Duration::from_secs(ctx.tier.pick(40, 600)), state_cap: 2_000_000, dedup: true },
+        );
+    }
     if ctx.tier == Tier::Thorough {
-        explore::explore(ctx, "isolation_router4", &Router { n: 4 }, ExploreOpts { max_depth: 3, wall_cap: Duration::from_secs(1200), state_cap: 2_000_000, dedup: true });
+        explore::explore(ctx, "isolation_router4", &Router { n: 4, plain: false, normal_mode: false }, ExploreOpts { max_depth: 3, wall_cap: Duration::from_secs(1200), state_cap: 2_000_000, dedup: true });
     }
     // switch and hub: the learning model of C13 carries the same conservation oracle (receivers, wire, byte identity, once,
     // no relaying); it is explored here under C10's name
@@ -381,7 +396,7 @@ pub fn replay(family: &str, case: &Value) -> Option<CaseResult> {
         f if f.starts_with("isolation_router") => {
             let hist: Vec<Ev> = serde_json::from_value(case["history"].clone()).ok()?;
             let n = if f.contains('4') { 4 } else { 3 };
-            Some(explore::replay_history(&Router { n }, &hist))
+            Some(explore::replay_history(&Router { n, plain: f.contains("plain"), normal_mode: f.contains("normal") }, &hist))
         }
         f => {
             let want = f.trim_end_matches("-audit").replace("isolation_", "learning_");
